@@ -7,6 +7,42 @@ import re
 
 HERE = os.path.dirname(os.path.dirname(os.path.abspath(__file__)))
 NEEDS = {
+    'C12-4': ('random splitter rounds the VALIDATION size and takes the training size as the remainder', 'percentage*n % 100 == 50 (never with the default 80%): 83 of 3159 configurations'),
+    'C12-5': ('weighted sampling falls back to uniform sampling when weights.sum() < machine epsilon', 'zero weights next to non-zero weights whose total is below 2.2e-16'),
+    'C12-6': ('k-fold: end of the validation chunk clamped with min() instead of taking the remainder in the last fold', 'n % folds != 0 and a check that looks across folds'),
+    'C17-4': ('section_t::block() moves the pending futures into a local vector before waiting', 'pool size >= 2, raise = true, a throwing task while siblings are still queued / running'),
+    'C17-5': ('section_t::block() skips futures that are already ready', 'raise = true and a task that threw and finished before block() reaches its future'),
+    'C17-6': ('chunked map: chunksize >= elements handled by one direct call', 'elements == 0: the operator is invoked once with the empty chunk [0, 0)'),
+    'C15-4': ('tensor reader skips resize when the destination already holds the same number of elements', 'a re-used destination with equal element count but another shape (rank >= 2)'),
+    'C15-5': ('parameter_t::read: the arm of the empty parameter no longer resets the storage', 'an untyped parameter in the stream read into an object that already holds a typed one'),
+    'C15-6': ('tensor reader overflow guard divides by the running product', 'rank >= 2 with a zero dimension followed by a positive one (also a header byte corrupted to 0): SIGFPE'),
+    'C14-4': ('done(): multipliers use x > 0 ? x : epsilon while the divisors keep max(x, epsilon)', 'a nearly constant column (spread strictly between 0 and 1e-8)'),
+    'C14-5': ('done(): min / max / mean reset to 0 also for single-sample columns', 'a column with exactly one valid value and a scaling other than none'),
+    'C14-6': ('done(): m_max assigned twice, m_min keeps the constructor sentinel for all-missing columns', 'a continuous column with no valid value, min-max scaling, a non-zero weight on it'),
+    'C19-4': ('from_string<enum> lost its exact-match pass (prefix pass only)', 'an enumerator whose name has another one as a proper prefix (wlearner_criterion aic / aicc)'),
+    'C19-5': ('check() evaluates a <= b as !(b < a) and the scalar update drops its isfinite test', 'NaN assigned to a real parameter whose bounds are both <='),
+    'C19-6': ('pinball_loss_t::clone() returns a default-constructed object', 'a pinball loss with a non-default alpha, then clone()'),
+    'C20-4': ('histogram bin means accumulated in the sample type', 'integer samples whose per-bin sum overflows that type (int8 / int16 / large int32)'),
+    'C20-5': ('unsorted median() via one nth_element and *std::prev(middle)', 'an even number (>= 4) of unsorted values whose partition leaves a non-maximal element left of the middle'),
+    'C20-6': ('histogram constructor no longer sorts the thresholds', 'thresholds handed to make_from_thresholds in non-ascending order'),
+    'C04-4': ('reduce(): FullPivLU threshold set to epsilon3 (1e-5)', 'a badly scaled [A|b] (one equality row x100, another x0.01, b of a few thousand)'),
+    'C04-5': ('solve_with_inequality: the exit after an exhausted stage-2 line search calls done() with sqrt(epsilon)', 'degenerate LP vertices with a near-singular KKT system'),
+    'C04-6': ('done(): the dual-residual conjunct tests rcent instead of rdual', 'a program unbounded along a recession direction with c.d < 0'),
+    'C18-4': ('elemwise_gradient_t::process: the kernel becomes a function-local static', 'two gradient generators with different kernel types in one process'),
+    'C18-5': ('learner_t::evaluate hoists the predictions tensor out of the parallel loop body', 'evaluate() on more than 100 samples with a dataset pool of at least 2 threads'),
+    'C18-6': ('gboost_model_t::features() caches the selected features in a mutable member', 'first features() calls on a fresh / loaded / copied model from two threads at once'),
+    'C09-7': ('linear objective: l1 sub-gradient normalised by W.cols() instead of W.size()', 'l1 > 0 and more than one output'),
+    'C09-8': ('linear objective: l2 value term 0.5*l2*squaredNorm()/W.cols()', 'l2 > 0 and more than one output'),
+    'C09-9': ('non-const linear::function_t::bias(x) maps the bias at offset isize instead of isize*tsize', 'more than one output'),
+    'C05-7': ('make_criterion: max(g, -miu/ro) became max(g, -miu)/ro', 'ro > 1 and an active inequality that is the last constraint to become feasible, |x*| of a few tens'),
+    'C05-8': ('kkt_optimality_test2 returns lpNorm<1> instead of lpNorm<Infinity> of the equality values', 'two or more equality constraints with non-zero residuals'),
+    'C05-9': ("quadratic constraint gradient P*x + q instead of 0.5*(P+P')*x + q (revert of an earlier repair)", 'a non-symmetric P'),
+    'C08-7': ('dataset_t::drop reads the feature mapping before byfeature() validates the index', 'an out-of-range feature index handed to drop(): out-of-bounds heap read before the exception'),
+    'C08-8': ('sclass_identity_t::process clamps the column width to max(classes - 1, 1)', 'a single-label feature with exactly one class followed by further columns'),
+    'C08-9': ('const datasource_t::visit reads m_storage_u08 on the 16-bit single-label path', 'a single-label feature or target with more than 256 classes'),
+    'C16-7': ('cross-storage tensor assignment skips the copy when data() and size() agree', 'an owning tensor assigned from a view of all its own elements with another shape'),
+    'C16-8': ('gather copies rows through reshape(n, -1).matrix()', 'an empty index list (division by zero in the -1 inference)'),
+    'C16-9': ('gather fast path: sorted full-length list starting at 0 and ending at n-1 => plain copy', 'a sorted full-length index list with duplicates'),
     'C01-4': ('quasi-Newton solvers accept a gradient test exactly equal to epsilon (<=)', 'a gradient test bit-for-bit equal to epsilon'),
     'C01-5': ('BFGS update rank-one term divided by dg.dg instead of dx.dg', 'curvature scale well above 1 (s ~ 1e2..1e3)'),
     'C01-6': ('L-BFGS initial scaling s.y/s.s instead of s.y/y.y', 'lowest curvature scale, large condition number, many dimensions'),
